@@ -86,7 +86,7 @@ func concurrentGrowth(rep *Report) int {
 		}
 	}
 	maxNames := 0
-	for round := 0; round < 10 && bad == ""; round++ {
+	for round := 0; round < 16 && bad == ""; round++ {
 		rows := 2500 * (round + 1)
 		people := make([]zoo.Person, rows)
 		for i := range people {
